@@ -2,14 +2,21 @@
   C05 — Syntax errors point at the first offending character.
 
   The verdict `fail at_` stands for `EndOfLine` when `at_ = []` and for `Character(|s| − |at_|)`
-  otherwise.  PARTIAL: proved here — the reported position always lies inside the input (the failing
-  remainder is a suffix of the input), `EndOfLine` is reported exactly when the reader stopped at the end
-  of the input, and `Character(i)` always has `i < |s|`.  Not yet theorems: "everything before the cursor
-  is a viable prefix and the prefix including it is not" (needs the truncation / extension / completion
-  lemmas of DESIGN.md 4.5); that part is decided on every run by the brute-force viability oracle and
-  the exhaustive one-character-corruption correspondence.
+  otherwise.  PARTIAL.  Proved about the reader: the reported position always lies inside the input (the
+  failing remainder is a suffix of the input), `EndOfLine` is reported exactly when the reader stopped at
+  the end of the input, and `Character(i)` always has `i < |s|`.
+  Proved about the documented grammar `Spec.classify` (Purr/Spec/Automaton.lean, Lemmas/AutomatonL.lean):
+  its verdict `Character(i)` is exactly the first offending character — the first `i` characters can be
+  completed to a sentence and the first `i + 1` cannot, whatever follows (`grammar_cursor_first_offending`;
+  every reachable configuration of the automaton has an explicit completion) — and `EndOfLine` is given
+  exactly to viable but incomplete inputs (`grammar_eol_viable_incomplete`).
+  Not yet a theorem: that the reader's verdict and cursor coincide with `Spec.classify` for every string;
+  that is decided on every run (field G of the S-read / S-atom suites: the real reader against `Spec.classify`
+  executed by the Lean driver, on all strings up to a length bound, every token family with its
+  one-character corruptions incl. multi-byte characters) and by the harness's brute-force viability oracle.
 -/
 import Purr.Lemmas.ShapeL
+import Purr.Lemmas.AutomatonL
 namespace Purr.C05
 open Purr
 
@@ -45,5 +52,19 @@ theorem verdict_total (s : Str) : (read s).2 = .ok ∨ (∃ a, (read s).2 = .fai
   | ok => exact Or.inl rfl
   | fail a => exact Or.inr ⟨a, rfl, fail_is_suffix s a h⟩
   | panic p => exact absurd h (run_no_panic _ _ _ p)
+
+/-- the documented grammar's error position is the first character that cannot continue any sentence -/
+theorem grammar_cursor_first_offending (s : Str) (i : Nat) (h : Spec.classify s = .character i) :
+    i < s.length ∧ (∃ z, Spec.classify (s.take i ++ z) = .ok) ∧ (∀ z, Spec.classify (s.take (i + 1) ++ z) ≠ .ok) :=
+  Spec.character_is_first_offending s i h
+
+/-- … and its `EndOfLine` means: viable prefix, but incomplete -/
+theorem grammar_eol_viable_incomplete (s : Str) (h : Spec.classify s = .endOfLine) :
+    Spec.classify s ≠ .ok ∧ ∃ z, Spec.classify (s ++ z) = .ok :=
+  Spec.endOfLine_is_viable_incomplete s h
+
+/-! non-vacuity -/
+example : Spec.classify "[C@TBx]".toList = .character 5 := by decide +kernel
+example : Spec.classify ("[C@TB".toList ++ Spec.completion ⟨.atTB, 0⟩) = .ok := by decide +kernel
 
 end Purr.C05
